@@ -92,7 +92,7 @@ Definition C16_decision_stmt (depth : Z) : Prop :=
     In (b, true) out -> In (a, true) out.
 
 (** the property for every MaxJobsQueueDepth (a theorem: Properties/C16.v) *)
-Definition C16_finite_depth : Prop := forall depth, -1 <= depth -> C16_decision_stmt depth.
+Definition C16_finite_depth_stmt : Prop := forall depth, -1 <= depth -> C16_decision_stmt depth.
 
 (** the same for an oracle that may re-push any job, [b] not necessarily pending *)
 Definition C16_decision_stmt_any_repush (depth : Z) : Prop :=
